@@ -25,7 +25,7 @@ func init() {
 				n = 1600
 			}
 			return fw.Meta{N: n, Level: "fault_enumeration", Chunk: 2, CaseTimeoutS: 600, MinNT: 30,
-				Rule:        "one case = one generated table (2..9 keys, values 1..60 bytes, some tables additionally carry empty and nil values; data compression none/gzip/snappy/lzw); damaged copies of its data file: every byte offset x {8 single-bit flips, 0x00, 0xFF, 0x91, 0x8d, 0x4c} (tables <= 2 KiB, seeded offsets + all header bytes beyond), every truncation length, every swap of two records. Each copy is read (a) with default options: open must fail or every Get/ScanRange/Scan step returns the written value; (b) with SkipHashCheckOnLoad+EnableHashCheckOnReads: each Get/scan step errors or returns the written value. A panic counts as a violation. Empty/nil values are only required to stay empty/nil under byte alterations of uncompressed (header-protected) tables. evaluations = damaged copies x 2 modes; non-trivial = table with >=2 non-empty values; distinct by table content hash",
+				Rule:        "one case = one generated table (2..9 keys, values 1..60 bytes, some tables additionally carry empty and nil values; data compression none/gzip/snappy/lzw; index loader default/disk/skiplist/slice by case); damaged copies of its data file: every byte offset x {8 single-bit flips, 0x00, 0xFF, 0x91, 0x8d, 0x4c} (tables <= 2 KiB, seeded offsets + all header bytes beyond), every truncation length, every swap of two records. Each copy is read (a) with default options: open must fail or every Get/ScanRange/Scan step returns the written value; (b) with SkipHashCheckOnLoad+EnableHashCheckOnReads: each Get/scan step errors or returns the written value. A panic counts as a violation. Empty/nil values are only required to stay empty/nil under byte alterations of uncompressed (header-protected) tables. evaluations = damaged copies x 2 modes; non-trivial = table with >=2 non-empty values; distinct by table content hash",
 				MinObs:      map[string]int64{"damaged_copies": 20000, "rejected_at_open": 5000, "rejected_at_read": 2000, "served_original_value": 2000, "truncations": 2000, "record_swaps": 50, "tables_with_empty_or_nil_value": 5},
 				Assumptions: []string{"a CRC32/CRC64 collision would be reported as a violation (probability negligible for the enumerated single-byte damage)"},
 			}
@@ -96,7 +96,9 @@ func runC09(c *fw.Case) {
 		c.Violate("harness/parse", "parser sees %d records want %d (%v)", len(pf.Recs), len(kvs), err)
 		return
 	}
-	cfg := fmt.Sprintf("dataComp=%d keys=%d dataBytes=%d emptiesOrNils=%v", dataComp, len(kvs), len(img), withEmpties)
+	loaderName := []string{"default", "disk", "skiplist", "slice"}[(c.Idx/4)%4]
+	c.Obs("tables_read_with_loader_"+loaderName, 1)
+	cfg := fmt.Sprintf("dataComp=%d keys=%d dataBytes=%d emptiesOrNils=%v loader=%s", dataComp, len(kvs), len(img), withEmpties, loaderName)
 	feat := ""
 	if dataComp != 0 {
 		feat = "/compressed"
@@ -134,6 +136,14 @@ func runC09(c *fw.Case) {
 					}
 				}()
 				opts := []sstables.ReadOption{sstables.ReadBasePath(tdir), sstables.ReadWithKeyComparator(skiplist.BytesComparator{}), sstables.ReadBufferSizeBytes(4096)}
+				switch loaderName {
+				case "disk":
+					opts = append(opts, sstables.ReadIndexLoader(&sstables.DiskIndexLoader{}))
+				case "skiplist":
+					opts = append(opts, sstables.ReadIndexLoader(&sstables.SkipListIndexLoader{KeyComparator: skiplist.BytesComparator{}, ReadBufferSize: 4096}))
+				case "slice":
+					opts = append(opts, sstables.ReadIndexLoader(&sstables.SliceKeyIndexLoader{ReadBufferSize: 4096}))
+				}
 				if mode == 1 {
 					mname = "verify-on-read"
 					opts = append(opts, sstables.SkipHashCheckOnLoad(), sstables.EnableHashCheckOnReads())
